@@ -31,10 +31,10 @@ ASSUMPTIONS = [
     "known finding C01-false-cycle: a violation whose stale location's task lies on a cycle of the ordering graph (which, the data flow being acyclic, exists only through container-level target/dependency overlap) is matched by signature",
 ]
 BOUNDS = {
-    "quick": "histories of <=3 operations over {a,b,n.x,l0} (one member per nested container) and <=3 over {n.x,n.y,n.z} (siblings); "
+    "quick": "histories of 5 operations over {a,b,c} with a reduced operation set (value / 2 expression shapes / unregister); histories of <=3 operations over {a,b,n.x,l0} (one member per nested container) and <=3 over {n.x,n.y,n.z} (siblings); "
              "inductive step: every set of <=2 definitions over {a,b,n.x,l0,l1} registered in every order, then one arbitrary operation; "
              "chains/fans of 1200..3000 tasks with symbolic head (pure build)",
-    "thorough": "histories <=4 over {a,b,n.x,l0}, <=3 over {a,b,c,n.x,l0,l1} and {a,b,n.x,n.y,n.z}; inductive step with <=3 definitions; "
+    "thorough": "the 5-operation histories on the compiled build; histories <=4 over {a,b,n.x,l0}, <=3 over {a,b,c,n.x,l0,l1} and {a,b,n.x,n.y,n.z}; inductive step with <=3 definitions; "
                 "chains/fans up to 5000 tasks; both builds",
 }
 OUTSIDE = "longer histories (covered only through the inductive step + C03 history independence), floats, more than 6 locations"
@@ -68,6 +68,23 @@ def list_ops(defs, locs, rich=False):
     for cont, members in (("l", ["l0", "l1"]),):
         if any(m in locs for m in members) and not any(m in defs for m in members):
             ops.append(("replace", cont))
+    return ops
+
+
+def list_ops_reduced(defs, locs):
+    """value / two expression shapes / unregister per location (long histories)"""
+    ops = []
+    for i, t in enumerate(locs):
+        ops.append(("val", t))
+        others = [x for x in locs if x != t]
+        cands = [("add", ("loc", others[0]), ("const", 1)), ("mul", ("loc", others[-1]), ("const", 2))]
+        for dsc in cands:
+            nd = dict(defs)
+            nd[t] = dsc
+            if not U.is_cyclic(nd):
+                ops.append(("expr", t, dsc))
+        if t in defs:
+            ops.append(("unreg", t))
     return ops
 
 
@@ -188,8 +205,11 @@ def run_history(ex, case):
     st = State(ex, case["build"])
     locs = case["locs"]
     for k in range(case["K"]):
-        ops = list_ops(st.defs, locs, case.get("rich", False))
-        i = case["first"] if k == 0 else ex.choose(len(ops))
+        ops = list_ops_reduced(st.defs, locs) if case.get("reduced") else list_ops(st.defs, locs, case.get("rich", False))
+        if k == 1 and case.get("second") is not None:
+            i = case["second"]
+        else:
+            i = case["first"] if k == 0 else ex.choose(len(ops))
         if i >= len(ops):
             return
         try:
@@ -295,6 +315,10 @@ def cases(tier):
     sib = ["n.x", "n.y", "n.z"]
     cs = []
     if tier == "quick":
+        # long histories over three flat locations with a reduced operation set
+        for f1 in range(9):
+            for f2 in range(12):
+                cs.append({"mode": "history", "build": "pure", "locs": ["a", "b", "c"], "K": 5, "first": f1, "second": f2, "reduced": True})
         cs += _hist_cases("pure", flat, 3)
         cs += _hist_cases("pure", sib, 3)
         cs += _inductive_cases("pure", ["a", "b", "n.x", "l0", "l1"], 2)
@@ -302,6 +326,9 @@ def cases(tier):
                {"mode": "chain", "build": "pure", "shape": "chain", "order": "rev", "n": 1200},
                {"mode": "chain", "build": "pure", "shape": "fan", "order": "fwd", "n": 3000}]
     else:
+        for f1 in range(9):
+            for f2 in range(12):
+                cs.append({"mode": "history", "build": "compiled", "locs": ["a", "b", "c"], "K": 5, "first": f1, "second": f2, "reduced": True})
         for b in ("pure", "compiled"):
             cs += _hist_cases(b, flat, 4 if b == "pure" else 3)
             cs += _hist_cases(b, ["a", "b", "c", "n.x", "l0", "l1"], 3)
